@@ -537,7 +537,8 @@ theorem keeps_save (s : State) (oi : Nat) : Keeps s (save s oi).1 := by
           simp only
           have he' : s.entry o.res = some e := by rw [← entry_of_sameBook h0]; exact he
           refine keeps_replace' (s := s) (s' := s.register oi)
-            { e with contents := ((s.register oi).root o).toBase } he' h0
+            { e with contents := ((s.register oi).root o).toBase,
+                     hash := if e.fmeta.isNone then .leaf .null else e.hash } he' h0
             ((s.register oi).size + encLen (s.register oi).flen ((s.register oi).root o).toBase
               - encLen (s.register oi).flen e.contents) ?_ rfl rfl rfl rfl
           intro hok
